@@ -2072,6 +2072,8 @@ ORDER = [
     "TOCPackages._add_providers", "TOCPackages._register", "TOCPackages._unregister", "TOCPackages.__init__",
     "TOCSchemas._update_parents_children", "TOCSchemas._register", "TOCSchemas._unregister", "TOCSchemas.__init__",
     "TOCSchemas.parent_path", "TOCSchemas.versions", "TOCSchemas.children",
+    "TOCLinks.__init__", "TOCLinks.resolve", "TOCLinks.update", "TOCLinks.register", "TOCLinks.unregister",
+    "TOCLinks.find_broken", "TOCLinks.find_missing", "TOCLinks.repair_missing",
 ]
 
 
